@@ -95,6 +95,9 @@ func afBody(w *W, a *astits.PacketAdaptationField) error {
 			}
 			ts33(x, uint64(e.SpliceType), e.DTSNextAccessUnit.Base)
 		}
+		for i := 0; i < e.ReservedLength; i++ {
+			x.U(0xff, 8)
+		}
 		w.U(uint64(x.Len()), 8)
 		w.Bytes(x.B)
 	}
@@ -228,7 +231,7 @@ func decodeAF(b []byte) (*astits.PacketAdaptationField, error) {
 		a.OPCR = readClock42(r)
 	}
 	if a.HasSplicingCountdown {
-		a.SpliceCountdown = int(r.U(8))
+		a.SpliceCountdown = int(int8(r.U(8))) // tcimsbf: two's complement (ISO 13818-1 2.4.3.4/2.4.3.5)
 	}
 	if a.HasTransportPrivateData {
 		n := int(r.U(8))
@@ -261,8 +264,12 @@ func decodeAF(b []byte) (*astits.PacketAdaptationField, error) {
 			if x.Err != nil {
 				return a, fmt.Errorf("%w: adaptation extension overruns its length", ErrNonConformant)
 			}
-			if x.Left() != 0 {
-				return a, fmt.Errorf("%w: reserved bytes inside the adaptation extension (not representable)", ErrNonConformant)
+			// for (i = 0; i < N; i++) reserved: whole bytes of ones close the extension
+			for _, rb := range x.Take(x.Left()) {
+				if rb != 0xff {
+					return a, fmt.Errorf("%w: reserved bytes of the adaptation extension are not all ones", ErrNonConformant)
+				}
+				e.ReservedLength++
 			}
 			a.AdaptationExtensionField = e
 		}
